@@ -54,6 +54,7 @@ Init == l = 1 /\ cnt = NoGuards /\ base = [set |-> FALSE]
 Step == /\ l <= Len(Rec)
         /\ LET e == Rec[l]
                gs == CASE e.ev = "reset" -> NoGuards
+                       [] e.ev = "driver_abort" -> [ M_driver_completed |-> Must(FALSE) ]
                        [] e.ev = "fault_base" -> JudgeBase(e)
                        [] e.ev = "fault" -> JudgeFault(base, e)
            IN /\ Report(e.i, e.sc, gs) /\ cnt' = Count(cnt, gs)
